@@ -12,7 +12,7 @@ from ..slchecks import RealOps, corr_vectors, describe, make_curve, random_real_
 from .. import numref
 from .C04 import translate  # noqa: F401
 
-PROP_MODS = ['Stbem.Props.C07', 'Stbem.Props.PanelsTie', 'Stbem.Props.SLRestTie']
+PROP_MODS = ['Stbem.Props.C07', 'Stbem.Props.PanelsTie', 'Stbem.Props.SLRestTie', 'Stbem.Props.C07TimeAdditive']
 RULE = ('correspondence (exact): the real evaluate (in-element split with mirrored log rules, seam-aware choice of the '
         'graded rule, pre-evaluated curve points of _init_elems), evaluate_exact and the evaluation plan on Q numbers '
         'against the Lean model over all point classes (inside, at an end point, within 1e-10 relative, neighbouring '
@@ -270,6 +270,9 @@ def search(res, tier, boost=False):
     # closed-form evaluation at times just after the end of the trial element (t = t_b (1 + d), d = 1e-15 ... 1e-6): by
     # additivity of the time integral, (V 1_[ta,tb])(t) = (V 1_[ta,t])(t) - (V 1_[tb,t])(t); the two terms on the right are
     # evaluated by the 't at the end of the element' branch, the left one by the 'after the element' branch
+    # (that this is an identity of the closed forms of the code, for every x and any interpretation of sqrt/erf/expi, is the
+    # theorem `Stbem.C07.gen_evaluate_exact_time_additive` of lean/Stbem/Props/C07TimeAdditive.lean, so a defect seen here is
+    # round-off / cancellation of the float evaluation, never a disagreement of the formulas)
     try:
         from ..slchecks import StubElem as _Stub
         worst_split = 0.0
